@@ -131,25 +131,26 @@ def compute(
             # The following while-loop is equivalent to:
             #
             # freq[pos][synset.id] += weight
-            # for path in synset.hypernym_paths():
-            #     for ss in path:
-            #         freq[pos][ss.id] += weight
+            # for ss in {ss for path in synset.hypernym_paths() for ss in path}:
+            #     freq[pos][ss.id] += weight
             #
             # ...but it caches hypernym lookups for speed
 
-            agenda: list[tuple[Synset, set[Synset]]] = [(synset, set())]
+            agenda: list[Synset] = [synset]
+            seen: set[Synset] = set()
             while agenda:
-                ss, seen = agenda.pop()
+                ss = agenda.pop()
 
-                # avoid cycles
+                # avoid cycles and count convergent ancestors only once
                 if ss in seen:
                     continue
+                seen.add(ss)
 
                 freq[pos][ss.id] += weight
 
                 if ss not in hypernym_cache:
                     hypernym_cache[ss] = ss.hypernyms()
-                agenda.extend((hyp, seen | {ss}) for hyp in hypernym_cache[ss])
+                agenda.extend(hypernym_cache[ss])
 
     return freq
 
